@@ -192,22 +192,25 @@ Fixpoint dincr (m : dstate) (k : N) : dstate :=
   | (k', c) :: t => if k' =? k then (k', c + 1) :: t else (k', c) :: dincr t k
   end.
 
-(* hash ^= value.Hash() over the field list; a null/invalid field ends the row
-   (continue RecordLoop) before the map is touched *)
-Fixpoint row_key (H : value -> N) (fields : list field) (r : row) (acc : N) : option N :=
+(* the key of a row: the per-field hashes folded with [C] over the field list; a
+   null/invalid field ends the row (continue RecordLoop) before the map is touched.
+   dedupcommand.go: hash = (hash ^ value.Hash()) * dedupHashPrime  (uint64) *)
+Fixpoint row_key (C : N -> N -> N) (H : value -> N) (fields : list field) (r : row) (acc : N) : option N :=
   match fields with
   | [] => Some acc
   | f :: t =>
     let v := get r f in
-    if is_null v then None else row_key H t r (N.lxor acc (H v))
+    if is_null v then None else row_key C H t r (C acc (H v))
   end.
+(* the code: FNV-1a style step, order sensitive *)
+Definition fnv_step (acc h : N) : N := (N.lxor acc h * 1099511628211) mod 18446744073709551616.
 
 Definition clear_fields (fields : list field) (r : row) : row :=
   fold_left (fun r f => set_field r f VNull) fields r.
 
-Definition dedup_row (H : value -> N) (o : dedup_opts) (m : dstate) (r : row) : dstate * list row :=
+Definition dedup_row (C : N -> N -> N) (H : value -> N) (o : dedup_opts) (m : dstate) (r : row) : dstate * list row :=
   let dropped := if d_keepevents o then [clear_fields (d_fields o) r] else [] in
-  match row_key H (d_fields o) r 0 with
+  match row_key C H (d_fields o) r 0 with
   | None => (m, if d_keepempty o then [r] else dropped)
   | Some h =>
     let out := match dget m h with
@@ -219,8 +222,12 @@ Definition dedup_row (H : value -> N) (o : dedup_opts) (m : dstate) (r : row) : 
     (m2, out)
   end.
 
-Definition dedup_cmd (H : value -> N) (o : dedup_opts) : command :=
-  row_cmd [] (dedup_row H o) (fun _ => []).
+Definition dedup_cmd_gen (C : N -> N -> N) (H : value -> N) (o : dedup_opts) : command :=
+  row_cmd [] (dedup_row C H o) (fun _ => []).
+(* the code *)
+Definition dedup_cmd : (value -> N) -> dedup_opts -> command := dedup_cmd_gen fnv_step.
+(* the code before the fix "dedup combines the field hashes in order": hash ^= value.Hash() *)
+Definition dedup_cmd_xor : (value -> N) -> dedup_opts -> command := dedup_cmd_gen N.lxor.
 
 (* the documented meaning: the first [limit] rows of each distinct combination of
    field values, order kept (rows with a null field dropped) *)
@@ -242,14 +249,16 @@ Fixpoint dedup_spec_from (limit : N) (fields : list field) (seen : list tuple) (
 Definition dedup_spec (limit : N) (fields : list field) (rows : batch) : batch :=
   dedup_spec_from limit fields [] rows.
 
-(* key of a tuple as the code computes it *)
-Definition xor_key (H : value -> N) (k : tuple) : N := fold_left (fun a v => N.lxor a (H v)) k 0.
-(* guard: on the tuples of this input the XOR key separates distinct tuples *)
-Fixpoint keys_injective (H : value -> N) (ks : list tuple) : bool :=
+(* key of a value combination as the code computes it *)
+Definition comb_key (C : N -> N -> N) (H : value -> N) (k : tuple) : N := fold_left (fun a v => C a (H v)) k 0.
+Definition xor_key : (value -> N) -> tuple -> N := comb_key N.lxor.
+(* guard: on the combinations of this input the key separates distinct combinations
+   (no collision of the 64-bit key) *)
+Fixpoint keys_injective (C : N -> N -> N) (H : value -> N) (ks : list tuple) : bool :=
   match ks with
   | [] => true
   | k :: t =>
-    forallb (fun k' => negb (xor_key H k =? xor_key H k') || tuple_eqb k k') t && keys_injective H t
+    forallb (fun k' => negb (comb_key C H k =? comb_key C H k') || tuple_eqb k k') t && keys_injective C H t
   end.
 Definition nonnull_tuples (fields : list field) (rows : batch) : list tuple :=
   filter (fun k => negb (existsb is_null k)) (map (proj fields) rows).
@@ -693,7 +702,9 @@ Fixpoint can_parallel_from (can_split : bool) (i : nat) (cs : list dpinfo) : boo
     else if i_generates d then (false, O)
     else
       let can_split' := can_split || i_ignores_order d in
-      if i_bottleneck d then (can_split', i) else can_parallel_from can_split' (S i) r
+      (* a two-pass command behind the merge point would rewind the merged chains: no split *)
+      if i_bottleneck d then (can_split' && negb (existsb i_twopass r), i)
+      else can_parallel_from can_split' (S i) r
   end.
 Definition can_parallel (cs : list dpinfo) : bool * nat := can_parallel_from false O cs.
 
